@@ -1,7 +1,7 @@
 // Hook H5 (ipa-core/src/query/processor.rs): `Processor.queries` is private; the harness injects
 // a `QueryState::Running` whose completion it controls, exactly as the module's own unit tests do.
 
-#[cfg(not(feature = "shuttle"))]
+#[cfg(all(not(feature = "shuttle"), feature = "descriptive-gate"))]
 mod c18 {
     include!(concat!(env!("IPA_VERIF_DIR"), "/c18.rs"));
 }
